@@ -270,7 +270,8 @@ class ProcessSpec:
         if namespace_options is None:
             namespace_options = {}
 
-        if exclude and include is not None:
+        if exclude is not None and include is not None:
+            # the same test as in `PortNamespace.absorb`, made before the target namespace is created
             raise ValueError('exclude and include are mutually exclusive')
 
         if namespace:
